@@ -213,6 +213,12 @@ func (u *Unit) Origins(v ssa.Value, opt *OriginOpts) []Origin {
 				for _, s := range sts {
 					walk(s.Val)
 				}
+				// field of a local struct copy: the whole value was stored to the alloc
+				if base, ok := a.X.(*ssa.Alloc); ok {
+					for _, s := range fi.allocStores[base] {
+						walk(s.Val)
+					}
+				}
 			case *ssa.Global:
 				add("global", a.Name(), a)
 				for _, s := range fi.globalStore[a] {
@@ -520,4 +526,36 @@ func (u *Unit) Taint(src ssa.Value, opt *TaintOpts) []TaintHit {
 		}
 	}
 	return hits
+}
+
+// DeadUnexported reports whether fn is an unexported root-package function
+// with no static caller and no use as a value anywhere in the (non-test)
+// package: it cannot run in production.
+func (u *Unit) DeadUnexported(fn *ssa.Function) bool {
+	if fn == nil || fn.Parent() != nil {
+		return false
+	}
+	if obj := fn.Object(); obj == nil || obj.Exported() {
+		return false
+	}
+	if len(u.flow().callers[fn]) > 0 {
+		return false
+	}
+	used := false
+	for _, g := range u.SrcFuncs() {
+		Instrs(g, func(in ssa.Instruction) {
+			for _, op := range in.Operands(nil) {
+				if *op == ssa.Value(fn) {
+					if ci, ok := in.(ssa.CallInstruction); ok && ci.Common().Value == ssa.Value(fn) {
+						continue
+					}
+					used = true
+				}
+				if mc, ok := (*op).(*ssa.MakeClosure); ok && strings.HasPrefix(mc.Fn.Name(), fn.Name()+"$bound") {
+					used = true
+				}
+			}
+		})
+	}
+	return !used
 }
